@@ -595,6 +595,18 @@ func handRun(prop, tier string, c Case, w *Worker) (res Result) {
 		viol("close|error", "Close: %v", err)
 		return
 	}
+	if c.Seed%3 == 0 {
+		// calls on the closed handle: whatever they answer, the file that a fresh open sees must not change and no lock may stay behind
+		// (writes through a closed handle are accepted by stfs and do change the file: outside the statement, noted in DESIGN.md)
+		done = append(done, "[after Close: Seek Stat Sync Close Close]")
+		_, _ = fh.Seek(0, io.SeekCurrent)
+		_, _ = fh.Stat()
+		_ = fh.Sync()
+		_ = fh.Close()
+		_ = fh.Close()
+		rig.LocksSettled()
+		res.count("sequences_with_calls_after_close", 1)
+	}
 	got, err := ReadAllFile(rig.FS, name)
 	if err != nil {
 		viol("after-close|read", "reading the file back after Close: %v", err)
